@@ -294,7 +294,38 @@ def run(m, rep, tier):
                         nonempty = True
             if not nonempty:
                 empty_splice = s2
-        if empty_splice is not None:
+        # path-sensitive: whenever anything of the source was handed to the destination (links / tail written, or the two objects
+        # exchanged as a block), the source is re-initialised before the function returns
+        from .. import typestate as _ts
+        left_behind = []
+
+        def _tr(ins, st, ps):
+            moved, reinit = st
+            if ins.op == 'call':
+                if ins.x.get('noreturn'):
+                    return None
+                if ins.callee == 'cstl_slist_init' and ins.o and strip_bitcasts(f, ins.o[0]) == '$1':
+                    return (moved, True)
+                if ins in listrules.exchange_events(f):
+                    return (True, False)
+            if ins.op == 'store':
+                a_ = resolve_addr(f, ins.o[1])
+                r_ = strip_bitcasts(f, a_.root) if isinstance(a_.root, str) else a_.root
+                if r_ == '$0' and a_.fsteps[-1:] in (((SL, 't'),), ((NODE, 'n'),)):
+                    return (True, reinit)
+                if r_ == '$1' and a_.fsteps[-1:] == ((SL, 'count'),) and const_int(ins.o[0]) == 0:
+                    return (moved, True)
+            if ins.op == 'ret' and moved and not reinit:
+                left_behind.append(ins)
+            return st
+        try:
+            _ts.run(f, (False, False), _tr, track=lambda r: False, limit=60000)
+        except _ts.Limit:
+            left_behind = []
+        if left_behind:
+            n5.violation('cstl_slist_concat', 'a path to the return at %s hands the source\'s nodes (or its whole object) to the destination without re-initialising '
+                         'the source: it keeps a tail that points into the other list' % left_behind[0].loc(), floc(m, f), {})
+        elif empty_splice is not None:
             n5.violation('cstl_slist_concat', 'the destination tail is re-pointed at %s without knowing that the source has any node (source count > 0): '
                          'for an empty source the tail would become the address of the source\'s own head link' % empty_splice.loc(), floc(m, f), {})
         elif ok and ((inits and all(f.dominates(adds[0], c) for c in inits)) or reinit_by_stores):
